@@ -18,6 +18,8 @@ REPRS = [
     # `#[repr(u128)]` and several `#[repr(i128)]` enums make kani-compiler 0.68 panic (rvalue.rs:1009): left out, stated
     ("#[repr(C, u8)]", "u8", "C_u8"), ("#[repr(i16, C)]", "i16", "i16_C"),
     ("#[repr(C)]\n#[repr(i32)]", "i32", "C_then_i32"),
+    # the integer repr in an EARLIER attribute than a non-integer one
+    ("#[repr(i16)]\n#[repr(C)]", "i16", "i16_then_C"), ("#[repr(u8)]\n#[repr(align(4))]", "u8", "u8_then_align4"),
     ("#[repr(u16, align(4))]", "u16", "u16_align4"), ("#[repr(C)]", "isize", "C_only"),
 ]
 
@@ -189,7 +191,7 @@ def shapes(tier):
                 if not has_int and repr_attr and lname in ("max", "min", "wide"):
                     continue
                 idx += 1
-                quick = (gname == "plain" and (ri in (0, 1, 8, 13) or lname.startswith("constexpr")
+                quick = (gname == "plain" and (ri in (0, 1, 8, 13, 14, 15) or lname.startswith("constexpr")
                                                and ri % 4 == 2)) or (gname != "plain" and ri in (2, 8))
                 out.append(make_shape(rtag, repr_attr, ty, lname, variants, gname, gdecl, guse, gextra, quick))
     if tier == "quick":
@@ -198,7 +200,7 @@ def shapes(tier):
 
 
 DESCRIPTION = {
-    "grid": "16 repr spellings (none, 10 integer types, `C,u8`, `i16,C`, two attributes, `u16,align(4)`, `C` alone) x "
+    "grid": "18 repr spellings (none, 10 integer types, `C,u8`, `i16,C`, two separate attributes in either order incl. `align`, `u16,align(4)`, `C` alone) x "
             "up to 15 discriminant layouts (implicit, explicit first, gaps, negative, MIN/MAX edges, empty tuple/brace "
             "variants, fielded variants with/without explicit discriminants, constant expressions with <<, &, ^, |, "
             "`as`, named constants, 2^40-range values) x 5 generic headers (none, lifetime, const, type, all three)",
